@@ -584,7 +584,7 @@ def run(tier, seed, replay=None):
         cases = [d["replay"]["case"]] if "case" in d.get("replay", {}) else []
     else:
         cases = vf.load_corpus(PROP)
-        n = 24 if tier == "quick" else 160
+        n = 24 if tier == "quick" else 120
         n = int(os.environ.get("VERIF_C16_CASES", n))      # smaller budgets for mutation experiments only
         for i in range(n):
             cases.append(gen_case(r.rng, tier, 1000 + i))
